@@ -152,6 +152,8 @@ Definition py_binop (o : binop) (x y : pyval) : res pyval :=
   | OpGe => cmp Z.geb (fun a b => PrimFloat.leb b a) x y
   | OpAnd => Ok (if truthy x then y else x)
   | OpOr => Ok (if truthy x then x else y)
+  | OpLAnd => Ok (VBool (truthy x && truthy y))      (* bool(x and y) *)
+  | OpLOr => Ok (VBool (truthy x || truthy y))       (* bool(x or y) *)
   | OpXor => bitop Z.lxor xorb x y
   | OpBitAnd => bitop Z.land andb x y
   | OpBitOr => bitop Z.lor orb x y
